@@ -13,8 +13,8 @@ Conventions
 * The convex hull works on integer points `(x, y)`; the cross product is exact (the fixed
   code computes it in `f64`).  `hullWith` takes the sort comparator as a parameter `le` on
   decorated entries (the theorems about the scan hold for every comparator, e.g. also for the
-  rounded `f32` cosine keys of the code before the fix); `hullExact` instantiates it with the
-  code's comparator `exactLe`.
+  rounded `f32` cosine keys of the code before the fix); `hullKey` instantiates it with the
+  code's key order `keyLe`, `hullExact` with the equivalent orientation form `exactLe`.
 -/
 namespace RtenVerif.Poly
 
@@ -160,9 +160,12 @@ def scan : List Pt → List Pt → List Pt
 def hullWith {α : Type} (pt : α → Pt) (le : α → α → Bool) (xs : List α) : List Pt :=
   (scan ((dedupKey pt (isort le xs)).map pt) []).reverse
 
-/-- The `sort_by` comparator of `convex_hull` relative to the min point `m`, as "not
-`Greater`": `m` itself first, then by the sign of `orientation(m, p, q)`, collinear points by
-squared distance from `m`. -/
+/-- The *orientation form* of the angular order around the min point `m`, as "not `Greater`":
+`m` itself first, then by the sign of `orientation(m, p, q)`, collinear points by squared
+distance from `m`.  The code used this as its `sort_by` comparator between the fixes 5bb4df1 and
+3c15d64; it now sorts precomputed keys (`keyLe` below).  The two orders coincide on the points
+`min_by` can leave (`keyLe_eq_exactLe`), and the order theory (`exactLe_trans`, …) is proved on
+this form. -/
 def exactLe (m p q : Pt) : Bool :=
   if p = m then true
   else if q = m then false
@@ -170,11 +173,42 @@ def exactLe (m p q : Pt) : Bool :=
   else if cross m p q < 0 then false
   else decide (sqDist m p ≤ sqDist m q)
 
-/-- `convex_hull`. -/
+/-- `convex_hull` with the orientation form of the sort order (see `hullKey_eq_hullExact`). -/
 def hullExact (pts : List Pt) : List Pt :=
   match minPoint pts with
   | none => []
   | some m => hullWith id (exactLe m) pts
+
+/-- **The code's sort order** (poly_algos.rs, `sort_key` + `sort_by` with `total_cmp`): every
+point gets the key `(dx / (0 − dy), dx² + dy²)` relative to the min point `m`, and `(−∞, 0)` if it
+equals `m`; keys are compared lexicographically.  Exact version: the quotients `a / (−b)` and
+`c / (−d)` are compared by cross-multiplication (`−b, −d > 0` for every point other than `m`,
+because `m` has the largest `y`), and `dy = 0` gives `+∞`.
+
+**Assumption A-f64 (not proved, named in `checks/C35.json`)**: the code computes the quotients
+and the squared distances in `f64`; the model assumes (i) the differences `dx, dy` are exact,
+(ii) correctly rounded division maps *distinct* rational slopes to distinct `f64` values and equal
+slopes to the same value (the second half always holds; the first holds e.g. for integer
+coordinates up to about 2^20), (iii) the rounded squared distances order collinear points as the
+exact ones do. -/
+def keyLe (m p q : Pt) : Bool :=
+  if p = m then true
+  else if q = m then false
+  else
+    let a := p.1 - m.1
+    let b := p.2 - m.2
+    let c := q.1 - m.1
+    let d := q.2 - m.2
+    let lt := if b = 0 then false else if d = 0 then true else decide (a * (-d) < c * (-b))
+    let eq := if b = 0 then decide (d = 0) else if d = 0 then false
+      else decide (a * (-d) = c * (-b))
+    if lt then true else if eq then decide (sqDist m p ≤ sqDist m q) else false
+
+/-- `convex_hull` as coded: min point, stable sort by key, dedup, orientation scan. -/
+def hullKey (pts : List Pt) : List Pt :=
+  match minPoint pts with
+  | none => []
+  | some m => hullWith id (keyLe m) pts
 
 /-! ## `min_area_rect`: the projection fold -/
 
